@@ -24,9 +24,14 @@ pub enum Signal {
     Mixed,
     QuietPeriodic,
     QuietTonal,
+    /// very slow, loud sine (period thousands of samples): ideal predictors approach binomial
+    /// coefficients, which are large against the 7-13 bit coefficient precision of small blocks
+    SlowSine,
+    /// low-degree polynomial in the sample index, scaled to the bit depth
+    Polynomial,
 }
 
-pub const ALL_SIGNALS: [Signal; 20] = [
+pub const ALL_SIGNALS: [Signal; 22] = [
     Signal::Silence,
     Signal::Constant,
     Signal::FullScaleSquare,
@@ -47,6 +52,8 @@ pub const ALL_SIGNALS: [Signal; 20] = [
     Signal::Mixed,
     Signal::QuietPeriodic,
     Signal::QuietTonal,
+    Signal::SlowSine,
+    Signal::Polynomial,
 ];
 
 pub fn lo(bps: u32) -> i64 {
@@ -241,6 +248,31 @@ pub fn generate(sig: Signal, channels: usize, bps: u32, frames: usize, rng: &mut
             for i in 0..frames {
                 for c in 0..channels {
                     let v = a * ((i as f64 * f1 * std::f64::consts::TAU).sin() + 0.5 * (i as f64 * f2 * std::f64::consts::TAU + c as f64).sin());
+                    out[i * channels + c] = clip(v.round() as i64, bps);
+                }
+            }
+        }
+        Signal::SlowSine => {
+            let period = 2000.0 + rng.f64() * 60000.0;
+            let a = amp * (0.5 + 0.49 * rng.f64());
+            let ph = rng.f64() * std::f64::consts::TAU;
+            for i in 0..frames {
+                for c in 0..channels {
+                    let v = a * (i as f64 / period * std::f64::consts::TAU + ph + 0.3 * c as f64).sin();
+                    out[i * channels + c] = clip(v.round() as i64, bps);
+                }
+            }
+        }
+        Signal::Polynomial => {
+            let degree = rng.usize(2, 7) as i32;
+            let n = frames.max(2) as f64;
+            let roots: Vec<f64> = (0..degree).map(|_| rng.f64() * 1.2 - 0.1).collect();
+            // p(x) = prod (x - r_k) on x in [0,1], normalised to 0.9 of full scale
+            let p = |x: f64| roots.iter().fold(1.0, |acc, r| acc * (x - r));
+            let peak = (0..frames).map(|i| p(i as f64 / n).abs()).fold(1e-12, f64::max);
+            for i in 0..frames {
+                for c in 0..channels {
+                    let v = 0.9 * amp * p(i as f64 / n) / peak * if c % 2 == 1 { -1.0 } else { 1.0 };
                     out[i * channels + c] = clip(v.round() as i64, bps);
                 }
             }
